@@ -79,6 +79,8 @@ T = {
             "Every option incl. zero values, booleans switched off, invalid combinations; thorough adds real `python -m tsdate` subprocesses."),
     "C35": ("postcondition monitor on every call outcome on the bounds-checking build; violations keyed by (exception type, innermost tsdate function, message stem)",
             "11 pathological input structures + the zoo x entry points x parameter sets with one named invalid parameter in a third of the cases."),
+    "C36": ("fault enumeration over the writer's recorded syscall trace (strace), live SIGKILL injection, and concurrent real-process schedules with logged interleavings",
+            "Every prefix of the writer's openat/write/rename/close sequence and byte offsets inside each write (all offsets in the thorough tier) materialised as directory states and read by the real reader code; strace inject=write:signal=SIGKILL at each write; 2 writers + 1 reader with random start delays, distinct syscall interleavings counted."),
     "C37": ("postcondition monitor on every rescale_tree_sequence() return",
             "Contemporaneous simulated / inferred / hand-made inputs, 1-100 intervals, 1-10 iterations."),
     "C38": ("two-run relation monitor with four related numberings; finding keyed by the observed mechanism (which node carries the last id)",
